@@ -296,7 +296,12 @@ def a4(ctx):
         if C.calls_to(crate, b, al) and C.calls_to(crate, b, hw):
             m += 1
             ins = [c for c in b.calls if c.callee and c.callee.name == "insert" and c.args and role_mentions_field(b.role_of_operand(c.args[0]), "pending")]
-            full = [c for c in ins if any(isinstance(x, tuple) and x[0] == "agg" and str(x[1]).endswith("PendingType::Full") for a in c.args for x in role_walk(b.role_of_operand(a)))]
+            # (the request kind is the constant Full itself — not `if .. { Full } else { OnlyAnalysis }`: the full pass of a new node is
+            # what derives its self-symmetries, e.g. for a parent over differently permuted invocations of a symmetric class)
+            def _is_full(r_):
+                r_ = strip_role(r_)
+                return isinstance(r_, tuple) and r_[0] == "agg" and str(r_[1]).endswith("PendingType::Full") and not r_[2]
+            full = [c for c in ins if len(c.args) >= 3 and _is_full(b.role_of_operand(c.args[-1]))]
             push = [c for c in b.calls if c.callee and c.callee.name == "push" and c.args and role_mentions_field(b.role_of_operand(c.args[0]), "modify_queue")]
             ctx.check(bool(full) and b.must_pass([0], b.return_blocks(), {c.bb for c in full}), "singleton-queued-full:" + C.fkey(b),
                       "the first node of a new class is queued with PendingType::Full",
